@@ -40,6 +40,9 @@ def duplex_scenarios(reps):
                 out.append(dict(base, duplex={"reader_limit_ms": 200}, script=[{"k": "wouldblock", "n": 0}, {"k": "xfer", "n": 3}], src="duplex-wait"))
                 # the reader gives up and leaves while the writer is still in its retry loop
                 out.append(dict(base, duplex={"reader_limit_ms": 25}, script=[{"k": "wouldblock", "n": 0}] * 5 + [{"k": "xfer", "n": 3}], src="duplex-reader-leaves-first"))
+                # the descriptor is closed (hooked close) while the reader is parked on it: the reader's call is lost, the process is not
+                if call == "send":
+                    out.append(dict(base, duplex={"reader_limit_ms": 300, "close_after_ms": 20}, script=[], src="duplex-closed-under-reader"))
                 # the writer is served at once and leaves first
                 out.append(dict(base, duplex={"reader_limit_ms": 60}, script=[{"k": "xfer", "n": 3}], src="duplex-writer-leaves-first"))
     return out
@@ -138,7 +141,7 @@ def run(pid, tier):
     bindir = build_harness()
     conn_scs = conn_stage(v, wd, tier, cov, bindir) if pid == "C18" else []
     if pid == "C18":
-        mc_runs("NioShared", [("MC_NioShared.cfg", None), ("MC_NioShared_mode_from_flag.cfg", "any")], tier, cov)
+        mc_runs("NioShared", [("MC_NioShared.cfg", None), ("MC_NioShared_mode_from_flag.cfg", "any"), ("MC_NioShared_restore_asserts.cfg", "NoAbort")], tier, cov)
     insts = [("MC_Nio.cfg", None)] + [("MC_Nio_%s.cfg" % d, "any") for d in DEVS]
     mc_runs("MC_Nio", insts, tier, cov)
     thorough = tier == "thorough"
